@@ -9,10 +9,12 @@ open Pyemv Pyemv.Gen
 theorem kd_derive_icc_mk_b (k : Bytes) (pan : StrOrBytes) (psn : Option StrOrBytes) :
     Gen.kd.derive_icc_mk_b k pan psn = deriveIccMkB k pan psn := by
   unfold Gen.kd.derive_icc_mk_b deriveIccMkB keyFromData psnTextR bcdPanPsn selectDigits pyMod
-  simp only [kd_derive_icc_mk_a, tools_xor, rep_flatten, tools_ecb, tools_adjust, bind, Except.bind, pure, Except.pure]
+  try simp only [bind_pure]      -- `do let v ← e; pure v` is `e` (single-exit rewrites)
+  simp only [kd_derive_icc_mk_a, tools_xor, rep_flatten, tools_ecb, tools_adjust, bind, Except.bind, pure, Except.pure, except_match_eta]
   by_cases h : pan.len ≤ 16
   · simp only [h, if_true]
     repeat (first | rfl | split)
+    all_goals first | (simp_all; done) | omega | slice_forms
   · simp only [h, if_false]
     cases (psn.getD (.str ['0', '0'])).text with
     | error e => rfl
